@@ -54,7 +54,7 @@ impl Store {
 //@ sub use gmsol_model::utils::apply_factor; => 
 //@ top :: proof { if rank as int <= self.gt_state.max_rank && self.referred.is_some() && self.referred.unwrap() <= uunit() { lemma_combined_bounds(self.gt_state.order_fee_discount_factors[rank as int] as int, self.referred.unwrap() as int); lemma_apply_le(self.gt_state.order_fee_discount_factors[rank as int] as int, uunit() - self.referred.unwrap() as int); } }
 //@ sub \.and_then\(\|factor\| discount_factor_for_referred\.checked_add\(factor\)\) => .and_then(|factor: u128| -> (o: Option<u128>) ensures (*discount_factor_for_referred + factor <= u128::MAX ==> o == Some((*discount_factor_for_referred + factor) as u128)), (*discount_factor_for_referred + factor > u128::MAX ==> o.is_none()) { discount_factor_for_referred.checked_add(factor) })
-//@ sub debug_assert!\(discount_factor <= MARKET_USD_UNIT\); => proof { lemma_combined_bounds(discount_factor_for_rank as int, *discount_factor_for_referred as int); } assert(discount_factor <= uunit());
+//@ before assert(discount_factor <= MARKET_USD_UNIT); :: proof { lemma_combined_bounds(discount_factor_for_rank as int, *discount_factor_for_referred as int); }
     pub fn order_fee_discount_factor(&self, rank: u8, is_referred: bool) -> (r: Result<u128, E>)
         requires gt_wf(self.gt_state), factors_valid(self.gt_state),
         ensures
